@@ -499,3 +499,13 @@ class CallGraph:
 
     def callers(self, q):
         return sorted(a for a, outs in self.edges.items() if q in outs)
+
+
+def trewrite(t, f):
+    """top-down rewrite of a term: f(t) -> replacement or None (then recurse into the children)"""
+    if not isinstance(t, tuple):
+        return t
+    r = f(t)
+    if r is not None:
+        return r
+    return tuple(trewrite(x, f) for x in t)
